@@ -1,11 +1,16 @@
 (** C20 — lemmas behind GenProps.v: every translated function T_<Type>_<Method> of Gen/Translated.v (regenerated from the
-    CURRENT Go source before every build) is extensionally equal to the hand-written model function of Model.v.
-    Proof style: unfold both sides, case-split every comparison (Z.eqb_spec / ltb_spec / leb_spec), close by reflexivity / lia:
-    insensitive to renamed locals, reordered independent statements, a > b written b < a, re-nested conditions, switch vs if.
-    The wraps the translator writes out (uint(lzcnt), 63-n, tq--, n -= 64, (1<<n)-1, 64-n) are shown not to wrap.
-    Loops: the whole-limb loops of the Uint256 shifts and the two loops of Uint256.Div by induction on the fuel. *)
+    CURRENT Go source before every build) is extensionally equal to the hand-written model function of Model.v on
+    well-formed operands (limbs in [0, 2^64) — every Go uint64 is).
+    Every proof is  first [ shape-specific script | shape-independent tactic ]  (GenTac.v): the first alternative is the
+    proof written against the code as it was transcribed; the second one does not look at the shape of the translated
+    code (unfold everything translated, run constant-bound loops over limb arrays symbolically, case-split every
+    comparison, decide wraps / carries / borrows by lia with the div/mod equations), so that a behaviour-preserving
+    rewrite of the Go source (other comparison chains, wrapped sums instead of bits.Add64 carries, loops over limb
+    arrays, early returns, helper functions) still yields the SAME theorem.  Composite functions (Uint128.QuoRem,
+    Uint256.Div) are proved from the equalities of their callees, whichever callees the code uses.
+    The wraps the translator writes out (uint(lzcnt), 63-n, tq--, n -= 64, (1<<n)-1, 64-n) are shown not to wrap. *)
 From Coq Require Import ZArith List Bool Lia.
-From OBI.C20 Require Import Model Proofs.
+From OBI.C20 Require Import Model Proofs GenTac.
 From OBI.C20.Gen Require Import Translated.
 Import ListNotations.
 Open Scope Z_scope.
@@ -21,345 +26,150 @@ Ltac split_cmp1 :=
 Ltac norm := cbv beta iota zeta delta [bind div64r negb orb andb fst snd h1 h0 q3 q2 q1 q0 add64 sub64 mul64 div64].
 Ltac split_all := norm; repeat (split_cmp1; norm).
 Ltac fin := try reflexivity; try (exfalso; lia); try lia.
-
-Lemma shl64_1_range n : 0 <= n < 64 -> 1 <= shl64 1 n < W.
-Proof.
-  intros H. unfold shl64. destruct (Z.ltb_spec n 64); [|lia]. rewrite Z.mul_1_l.
-  assert (0 < 2^n) by (apply Z.pow_pos_nonneg; lia).
-  assert (2^n < 2^64) by (apply Z.pow_lt_mono_r; lia).
-  rewrite Z.mod_small by (rewrite W_pow; lia). rewrite W_pow. lia.
-Qed.
+(* [two old gen]: the shape-specific script first, the shape-independent one otherwise *)
+Tactic Notation "two" tactic(old) "|||" tactic(gen) := first [ solve [ old ] | solve [ gen ] ].
 
 (* ---------------- Uint64 ---------------- *)
-Lemma L_Uint64_Zero_eq : forall u, T_Uint64_Zero u = 0. Proof. reflexivity. Qed.
-Lemma L_Uint64_MaxValue_eq : forall u, T_Uint64_MaxValue u = W - 1. Proof. reflexivity. Qed.
-Lemma L_Uint64_IsZero_eq : forall u, T_Uint64_IsZero u = (u =? 0). Proof. reflexivity. Qed.
-Lemma L_Uint64_Uint64_eq : forall u, T_Uint64_Uint64 u = u. Proof. reflexivity. Qed.
-Lemma L_Uint64_Uint128_eq : forall u, T_Uint64_Uint128 u = mk128 0 u. Proof. reflexivity. Qed.
-Lemma L_Uint64_Uint256_eq : forall u, T_Uint64_Uint256 u = mk256 0 0 0 u. Proof. reflexivity. Qed.
-Lemma L_Uint64_Set64_eq : forall u v, T_Uint64_Set64 u v = v. Proof. reflexivity. Qed.
-
-Lemma L_Uint64_LeftShift64_eq : forall u n c, 0 <= n < W ->
-  T_Uint64_LeftShift64 u n c = leftshift64 u n c.
-Proof.
-  intros u n c Hn. pose proof W_val as WV.
-  cbv delta [T_Uint64_LeftShift64 leftshift64]. split_all; fin.
-  - pose proof (shl64_1_range n ltac:(lia)). rewrite !Z.mod_small by lia. reflexivity.
-  - rewrite !Z.mod_small by lia. reflexivity.
-Qed.
-Lemma L_Uint64_RightShift64_eq : forall u n c, 0 <= n < W ->
-  T_Uint64_RightShift64 u n c = rightshift64 u n c.
-Proof.
-  intros u n c Hn. pose proof W_val as WV.
-  cbv delta [T_Uint64_RightShift64 rightshift64]. split_all; fin.
-  - rewrite (Z.mod_small (64 - n)) by lia.
-    pose proof (shl64_1_range (64 - n) ltac:(lia)). rewrite !Z.mod_small by lia. reflexivity.
-  - rewrite !Z.mod_small by lia. reflexivity.
-Qed.
-Lemma L_Uint64_Add64_eq : forall u v c, T_Uint64_Add64 u v c = add64 u v c. Proof. reflexivity. Qed.
-Lemma L_Uint64_Sub64_eq : forall u v c, T_Uint64_Sub64 u v c = sub64 u v c. Proof. reflexivity. Qed.
-Lemma L_Uint64_Mul64_eq : forall u v, T_Uint64_Mul64 u v = (snd (mul64 u v), fst (mul64 u v)). Proof. reflexivity. Qed.
-Lemma L_Uint64_LeftShift_eq : forall u n, 0 <= n < W -> T_Uint64_LeftShift u n = u64_shl u n.
-Proof. intros. unfold T_Uint64_LeftShift, u64_shl. rewrite L_Uint64_LeftShift64_eq by assumption.
-  destruct (leftshift64 u n 0); reflexivity. Qed.
-Lemma L_Uint64_RightShift_eq : forall u n, 0 <= n < W -> T_Uint64_RightShift u n = u64_shr u n.
-Proof. intros. unfold T_Uint64_RightShift, u64_shr. rewrite L_Uint64_RightShift64_eq by assumption.
-  destruct (rightshift64 u n 0); reflexivity. Qed.
-Lemma L_Uint64_Add_eq : forall u v, T_Uint64_Add u v = u64_add u v.
-Proof. intros. cbv delta [T_Uint64_Add u64_add T_Uint64_Add64]. split_all; fin. Qed.
-Lemma L_Uint64_Sub_eq : forall u v, T_Uint64_Sub u v = u64_sub u v.
-Proof. intros. cbv delta [T_Uint64_Sub u64_sub T_Uint64_Sub64]. split_all; fin. Qed.
-Lemma L_Uint64_Mul_eq : forall u v, T_Uint64_Mul u v = u64_mul u v.
-Proof. intros. cbv delta [T_Uint64_Mul u64_mul T_Uint64_Mul64]. split_all; fin. Qed.
+Lemma L_Uint64_Zero_eq : forall u, T_Uint64_Zero u = 0.
+Proof. two (reflexivity) ||| (g_eq idtac). Qed.
+Lemma L_Uint64_MaxValue_eq : forall u, T_Uint64_MaxValue u = W - 1.
+Proof. two (reflexivity) ||| (g_eq idtac). Qed.
+Lemma L_Uint64_IsZero_eq : forall u, T_Uint64_IsZero u = (u =? 0).
+Proof. two (reflexivity) ||| (g_eq idtac). Qed.
+Lemma L_Uint64_Uint64_eq : forall u, T_Uint64_Uint64 u = u.
+Proof. two (reflexivity) ||| (g_eq idtac). Qed.
+Lemma L_Uint64_Uint128_eq : forall u, T_Uint64_Uint128 u = mk128 0 u.
+Proof. two (reflexivity) ||| (g_eq idtac). Qed.
+Lemma L_Uint64_Uint256_eq : forall u, T_Uint64_Uint256 u = mk256 0 0 0 u.
+Proof. two (reflexivity) ||| (g_eq idtac). Qed.
+Lemma L_Uint64_Set64_eq : forall u v, T_Uint64_Set64 u v = v.
+Proof. two (reflexivity) ||| (g_eq idtac). Qed.
+Lemma L_Uint64_Add64_eq : forall u v c, T_Uint64_Add64 u v c = add64 u v c.
+Proof. two (reflexivity) ||| (g_eq idtac). Qed.
+Lemma L_Uint64_Sub64_eq : forall u v c, T_Uint64_Sub64 u v c = sub64 u v c.
+Proof. two (reflexivity) ||| (g_eq idtac). Qed.
+Lemma L_Uint64_Mul64_eq : forall u v, T_Uint64_Mul64 u v = (snd (mul64 u v), fst (mul64 u v)).
+Proof. two (reflexivity) ||| (g_eq idtac). Qed.
+Lemma L_Uint64_Add_eq : forall u v, inW u -> inW v -> T_Uint64_Add u v = u64_add u v.
+Proof. two (intros; cbv delta [T_Uint64_Add u64_add T_Uint64_Add64]; split_all; fin) ||| (g_eq ltac:(unfold u64_add)). Qed.
+Lemma L_Uint64_Sub_eq : forall u v, inW u -> inW v -> T_Uint64_Sub u v = u64_sub u v.
+Proof. two (intros; cbv delta [T_Uint64_Sub u64_sub T_Uint64_Sub64]; split_all; fin) ||| (g_eq ltac:(unfold u64_sub)). Qed.
+Lemma L_Uint64_Mul_eq : forall u v, inW u -> inW v -> T_Uint64_Mul u v = u64_mul u v.
+Proof. two (intros; cbv delta [T_Uint64_Mul u64_mul T_Uint64_Mul64]; split_all; fin) ||| (g_eq ltac:(unfold u64_mul)). Qed.
 Lemma L_Uint64_Cmp_eq : forall u v, T_Uint64_Cmp u v = u64_cmp u v.
-Proof. intros. cbv delta [T_Uint64_Cmp u64_cmp]. split_all; fin. Qed.
+Proof. two (intros; cbv delta [T_Uint64_Cmp u64_cmp]; split_all; fin) ||| (g_eq ltac:(unfold u64_cmp)). Qed.
 Lemma L_Uint64_Equals_eq : forall u v, T_Uint64_Equals u v = (u64_cmp u v =? 0).
-Proof. intros. unfold T_Uint64_Equals. rewrite L_Uint64_Cmp_eq. reflexivity. Qed.
+Proof. two (intros; unfold T_Uint64_Equals; rewrite L_Uint64_Cmp_eq; reflexivity) ||| (g_eq ltac:(unfold u64_cmp)). Qed.
 Lemma L_Uint64_LessThan_eq : forall u v, T_Uint64_LessThan u v = (u64_cmp u v <? 0).
-Proof. intros. unfold T_Uint64_LessThan. rewrite L_Uint64_Cmp_eq. reflexivity. Qed.
+Proof. two (intros; unfold T_Uint64_LessThan; rewrite L_Uint64_Cmp_eq; reflexivity) ||| (g_eq ltac:(unfold u64_cmp)). Qed.
 Lemma L_Uint64_GreaterThan_eq : forall u v, T_Uint64_GreaterThan u v = (0 <? u64_cmp u v).
-Proof. intros. unfold T_Uint64_GreaterThan. rewrite L_Uint64_Cmp_eq. reflexivity. Qed.
+Proof. two (intros; unfold T_Uint64_GreaterThan; rewrite L_Uint64_Cmp_eq; reflexivity) ||| (g_eq ltac:(unfold u64_cmp)). Qed.
 Lemma L_Uint64_LessThanOrEqual_eq : forall u v, T_Uint64_LessThanOrEqual u v = negb (0 <? u64_cmp u v).
-Proof. intros. unfold T_Uint64_LessThanOrEqual. rewrite L_Uint64_GreaterThan_eq. reflexivity. Qed.
+Proof. two (intros; unfold T_Uint64_LessThanOrEqual; rewrite L_Uint64_GreaterThan_eq; reflexivity) ||| (g_eq ltac:(unfold u64_cmp)). Qed.
 Lemma L_Uint64_GreaterThanOrEqual_eq : forall u v, T_Uint64_GreaterThanOrEqual u v = negb (u64_cmp u v <? 0).
-Proof. intros. unfold T_Uint64_GreaterThanOrEqual. rewrite L_Uint64_LessThan_eq. reflexivity. Qed.
-Lemma L_Uint64_And_eq : forall u v, T_Uint64_And u v = Z.land u v. Proof. reflexivity. Qed.
-Lemma L_Uint64_Or_eq : forall u v, T_Uint64_Or u v = Z.lor u v. Proof. reflexivity. Qed.
-Lemma L_Uint64_Xor_eq : forall u v, T_Uint64_Xor u v = Z.lxor u v. Proof. reflexivity. Qed.
-Lemma L_Uint64_Not_eq : forall u, T_Uint64_Not u = not64 u. Proof. reflexivity. Qed.
-Lemma L_Uint64_AsUint64_eq : forall u, T_Uint64_AsUint64 u = u. Proof. reflexivity. Qed.
+Proof. two (intros; unfold T_Uint64_GreaterThanOrEqual; rewrite L_Uint64_LessThan_eq; reflexivity) ||| (g_eq ltac:(unfold u64_cmp)). Qed.
+Lemma L_Uint64_And_eq : forall u v, T_Uint64_And u v = Z.land u v.
+Proof. two (reflexivity) ||| (g_eq idtac). Qed.
+Lemma L_Uint64_Or_eq : forall u v, T_Uint64_Or u v = Z.lor u v.
+Proof. two (reflexivity) ||| (g_eq idtac). Qed.
+Lemma L_Uint64_Xor_eq : forall u v, T_Uint64_Xor u v = Z.lxor u v.
+Proof. two (reflexivity) ||| (g_eq idtac). Qed.
+Lemma L_Uint64_Not_eq : forall u, T_Uint64_Not u = not64 u.
+Proof. two (reflexivity) ||| (g_eq idtac). Qed.
+Lemma L_Uint64_AsUint64_eq : forall u, T_Uint64_AsUint64 u = u.
+Proof. two (reflexivity) ||| (g_eq idtac). Qed.
 
-(* ---------------- Uint128 ---------------- *)
-Lemma L_Uint128_Zero_eq : forall u, T_Uint128_Zero u = mk128 0 0. Proof. reflexivity. Qed.
-Lemma L_Uint128_MaxValue_eq : forall u, T_Uint128_MaxValue u = mk128 (W - 1) (W - 1). Proof. reflexivity. Qed.
-Lemma L_Uint128_IsZero_eq : forall u, T_Uint128_IsZero u = ((h0 u =? 0) && (h1 u =? 0))%bool. Proof. reflexivity. Qed.
+(* ---------------- Uint128 (loop-free, shifts are in GenShift.v) ---------------- *)
+Lemma L_Uint128_Zero_eq : forall u, T_Uint128_Zero u = mk128 0 0.
+Proof. two (reflexivity) ||| (g_eq idtac). Qed.
+Lemma L_Uint128_MaxValue_eq : forall u, T_Uint128_MaxValue u = mk128 (W - 1) (W - 1).
+Proof. two (reflexivity) ||| (g_eq idtac). Qed.
+Lemma L_Uint128_IsZero_eq : forall u, T_Uint128_IsZero u = ((h0 u =? 0) && (h1 u =? 0))%bool.
+Proof. two (reflexivity) ||| (g_eq idtac). Qed.
 Lemma L_Uint128_Uint64_eq : forall u, T_Uint128_Uint64 u = h0 u.
-Proof. intros. unfold T_Uint128_Uint64. split_all; fin. Qed.
-Lemma L_Uint128_Uint128_eq : forall u, T_Uint128_Uint128 u = u. Proof. reflexivity. Qed.
-Lemma L_Uint128_Uint256_eq : forall u, T_Uint128_Uint256 u = mk256 0 0 (h1 u) (h0 u). Proof. reflexivity. Qed.
-Lemma L_Uint128_Set64_eq : forall u v, T_Uint128_Set64 u v = mk128 0 v. Proof. reflexivity. Qed.
-Lemma L_Uint128_LeftShift_eq : forall u n, 0 <= n < W -> T_Uint128_LeftShift u n = u128_shl u n.
-Proof. intros. unfold T_Uint128_LeftShift, u128_shl. rewrite L_Uint64_LeftShift64_eq by assumption. destruct (leftshift64 (h0 u) n 0). rewrite L_Uint64_LeftShift64_eq by assumption. reflexivity. Qed.
-Lemma L_Uint128_RightShift_eq : forall u n, 0 <= n < W -> T_Uint128_RightShift u n = u128_shr u n.
-Proof. intros. unfold T_Uint128_RightShift, u128_shr. rewrite L_Uint64_RightShift64_eq by assumption. destruct (rightshift64 (h1 u) n 0). rewrite L_Uint64_RightShift64_eq by assumption. reflexivity. Qed.
-Lemma L_Uint128_Add_eq : forall u v, T_Uint128_Add u v = u128_add u v.
-Proof. intros. unfold T_Uint128_Add, u128_add. split_all; fin. Qed.
-Lemma L_Uint128_Add64_eq : forall u v, T_Uint128_Add64 u v = u128_add64 u v.
-Proof. intros. unfold T_Uint128_Add64, u128_add64. split_all; fin. Qed.
-Lemma L_Uint128_Sub_eq : forall u v, T_Uint128_Sub u v = u128_sub u v.
-Proof. intros. unfold T_Uint128_Sub, u128_sub. split_all; fin. Qed.
-Lemma L_Uint128_Mul_eq : forall u v, T_Uint128_Mul u v = u128_mul u v.
-Proof. intros. unfold T_Uint128_Mul, u128_mul. split_all; fin. Qed.
-Lemma L_Uint128_Mul64_eq : forall u v, T_Uint128_Mul64 u v = u128_mul64 u v.
-Proof. intros. unfold T_Uint128_Mul64, u128_mul64. split_all; fin. Qed.
-Lemma L_Uint128_QuoRem64_eq : forall u v, T_Uint128_QuoRem64 u v = u128_quorem64 u v.
-Proof. intros. unfold T_Uint128_QuoRem64, u128_quorem64. split_all; fin. Qed.
+Proof. two (intros; unfold T_Uint128_Uint64; split_all; fin) ||| (g_eq idtac). Qed.
+Lemma L_Uint128_Uint128_eq : forall u, T_Uint128_Uint128 u = u.
+Proof. two (reflexivity) ||| (g_eq idtac). Qed.
+Lemma L_Uint128_Uint256_eq : forall u, T_Uint128_Uint256 u = mk256 0 0 (h1 u) (h0 u).
+Proof. two (reflexivity) ||| (g_eq idtac). Qed.
+Lemma L_Uint128_Set64_eq : forall u v, T_Uint128_Set64 u v = mk128 0 v.
+Proof. two (reflexivity) ||| (g_eq idtac). Qed.
+Lemma L_Uint128_Add_eq : forall u v, wf128 u -> wf128 v -> T_Uint128_Add u v = u128_add u v.
+Proof. two (intros; unfold T_Uint128_Add, u128_add; split_all; fin) ||| (g_eq ltac:(unfold u128_add)). Qed.
+Lemma L_Uint128_Add64_eq : forall u v, wf128 u -> inW v -> T_Uint128_Add64 u v = u128_add64 u v.
+Proof. two (intros; unfold T_Uint128_Add64, u128_add64; split_all; fin) ||| (g_eq ltac:(unfold u128_add64)). Qed.
+Lemma L_Uint128_Sub_eq : forall u v, wf128 u -> wf128 v -> T_Uint128_Sub u v = u128_sub u v.
+Proof. two (intros; unfold T_Uint128_Sub, u128_sub; split_all; fin) ||| (g_eq ltac:(unfold u128_sub)). Qed.
+Lemma L_Uint128_Mul_eq : forall u v, wf128 u -> wf128 v -> T_Uint128_Mul u v = u128_mul u v.
+Proof. two (intros; unfold T_Uint128_Mul, u128_mul; split_all; fin) ||| (g_eq ltac:(unfold u128_mul)). Qed.
+Lemma L_Uint128_Mul64_eq : forall u v, wf128 u -> inW v -> T_Uint128_Mul64 u v = u128_mul64 u v.
+Proof. two (intros; unfold T_Uint128_Mul64, u128_mul64; split_all; fin) ||| (g_eq ltac:(unfold u128_mul64)). Qed.
+Lemma L_Uint128_QuoRem64_eq : forall u v, wf128 u -> inW v -> T_Uint128_QuoRem64 u v = u128_quorem64 u v.
+Proof. two (intros; unfold T_Uint128_QuoRem64, u128_quorem64; split_all; fin) ||| (g_eq ltac:(unfold u128_quorem64)). Qed.
 Lemma L_Uint128_Cmp_eq : forall u v, T_Uint128_Cmp u v = u128_cmp u v.
-Proof. intros. unfold T_Uint128_Cmp, u128_cmp. split_all; fin. Qed.
-Lemma L_Uint128_Cmp64_eq : forall u v, T_Uint128_Cmp64 u v = u128_cmp64 u v.
-Proof. intros. unfold T_Uint128_Cmp64, u128_cmp64. split_all; fin. Qed.
+Proof. two (intros; unfold T_Uint128_Cmp, u128_cmp; split_all; fin) ||| (g_eq ltac:(unfold u128_cmp)). Qed.
+Lemma L_Uint128_Cmp64_eq : forall u v, wf128 u -> inW v -> T_Uint128_Cmp64 u v = u128_cmp64 u v.
+Proof. two (intros; unfold T_Uint128_Cmp64, u128_cmp64; split_all; fin) ||| (g_eq ltac:(unfold u128_cmp64)). Qed.
 Lemma L_Uint128_Equals_eq : forall u v, T_Uint128_Equals u v = (u128_cmp u v =? 0).
-Proof. intros. unfold T_Uint128_Equals. rewrite L_Uint128_Cmp_eq. reflexivity. Qed.
+Proof. two (intros; unfold T_Uint128_Equals; rewrite L_Uint128_Cmp_eq; reflexivity) ||| (g_eq ltac:(unfold u128_cmp)). Qed.
 Lemma L_Uint128_LessThan_eq : forall u v, T_Uint128_LessThan u v = (u128_cmp u v <? 0).
-Proof. intros. unfold T_Uint128_LessThan. rewrite L_Uint128_Cmp_eq. reflexivity. Qed.
+Proof. two (intros; unfold T_Uint128_LessThan; rewrite L_Uint128_Cmp_eq; reflexivity) ||| (g_eq ltac:(unfold u128_cmp)). Qed.
 Lemma L_Uint128_GreaterThan_eq : forall u v, T_Uint128_GreaterThan u v = (0 <? u128_cmp u v).
-Proof. intros. unfold T_Uint128_GreaterThan. rewrite L_Uint128_Cmp_eq. reflexivity. Qed.
+Proof. two (intros; unfold T_Uint128_GreaterThan; rewrite L_Uint128_Cmp_eq; reflexivity) ||| (g_eq ltac:(unfold u128_cmp)). Qed.
 Lemma L_Uint128_LessThanOrEqual_eq : forall u v, T_Uint128_LessThanOrEqual u v = negb (0 <? u128_cmp u v).
-Proof. intros. unfold T_Uint128_LessThanOrEqual. rewrite L_Uint128_GreaterThan_eq. reflexivity. Qed.
+Proof. two (intros; unfold T_Uint128_LessThanOrEqual; rewrite L_Uint128_GreaterThan_eq; reflexivity) ||| (g_eq ltac:(unfold u128_cmp)). Qed.
 Lemma L_Uint128_GreaterThanOrEqual_eq : forall u v, T_Uint128_GreaterThanOrEqual u v = negb (u128_cmp u v <? 0).
-Proof. intros. unfold T_Uint128_GreaterThanOrEqual. rewrite L_Uint128_LessThan_eq. reflexivity. Qed.
-Lemma L_Uint128_And_eq : forall u v, T_Uint128_And u v = mk128 (Z.land (h1 u) (h1 v)) (Z.land (h0 u) (h0 v)). Proof. reflexivity. Qed.
-Lemma L_Uint128_Or_eq : forall u v, T_Uint128_Or u v = mk128 (Z.lor (h1 u) (h1 v)) (Z.lor (h0 u) (h0 v)). Proof. reflexivity. Qed.
-Lemma L_Uint128_Xor_eq : forall u v, T_Uint128_Xor u v = mk128 (Z.lxor (h1 u) (h1 v)) (Z.lxor (h0 u) (h0 v)). Proof. reflexivity. Qed.
-Lemma L_Uint128_Not_eq : forall u, T_Uint128_Not u = mk128 (not64 (h1 u)) (not64 (h0 u)). Proof. reflexivity. Qed.
-Lemma L_Uint128_AsUint64_eq : forall u, T_Uint128_AsUint64 u = h0 u. Proof. reflexivity. Qed.
+Proof. two (intros; unfold T_Uint128_GreaterThanOrEqual; rewrite L_Uint128_LessThan_eq; reflexivity) ||| (g_eq ltac:(unfold u128_cmp)). Qed.
+Lemma L_Uint128_And_eq : forall u v, T_Uint128_And u v = mk128 (Z.land (h1 u) (h1 v)) (Z.land (h0 u) (h0 v)).
+Proof. two (reflexivity) ||| (g_eq idtac). Qed.
+Lemma L_Uint128_Or_eq : forall u v, T_Uint128_Or u v = mk128 (Z.lor (h1 u) (h1 v)) (Z.lor (h0 u) (h0 v)).
+Proof. two (reflexivity) ||| (g_eq idtac). Qed.
+Lemma L_Uint128_Xor_eq : forall u v, T_Uint128_Xor u v = mk128 (Z.lxor (h1 u) (h1 v)) (Z.lxor (h0 u) (h0 v)).
+Proof. two (reflexivity) ||| (g_eq idtac). Qed.
+Lemma L_Uint128_Not_eq : forall u, T_Uint128_Not u = mk128 (not64 (h1 u)) (not64 (h0 u)).
+Proof. two (reflexivity) ||| (g_eq idtac). Qed.
+Lemma L_Uint128_AsUint64_eq : forall u, T_Uint128_AsUint64 u = h0 u.
+Proof. two (reflexivity) ||| (g_eq idtac). Qed.
 
-(* ---------------- Uint256 (loop-free) ---------------- *)
-Lemma L_Uint256_Zero_eq : forall u, T_Uint256_Zero u = mk256 0 0 0 0. Proof. reflexivity. Qed.
-Lemma L_Uint256_MaxValue_eq : forall u, T_Uint256_MaxValue u = mk256 (W - 1) (W - 1) (W - 1) (W - 1). Proof. reflexivity. Qed.
-Lemma L_Uint256_IsZero_eq : forall u, T_Uint256_IsZero u = u256_iszero u. Proof. reflexivity. Qed.
+(* ---------------- Uint256 (loop-free or constant-bound loops; shifts in GenShift.v, Mul in GenMul.v) ---------------- *)
+Lemma L_Uint256_Zero_eq : forall u, T_Uint256_Zero u = mk256 0 0 0 0.
+Proof. two (reflexivity) ||| (g_eq idtac). Qed.
+Lemma L_Uint256_MaxValue_eq : forall u, T_Uint256_MaxValue u = mk256 (W - 1) (W - 1) (W - 1) (W - 1).
+Proof. two (reflexivity) ||| (g_eq idtac). Qed.
+Lemma L_Uint256_IsZero_eq : forall u, T_Uint256_IsZero u = u256_iszero u.
+Proof. two (reflexivity) ||| (g_eq ltac:(unfold u256_iszero)). Qed.
 Lemma L_Uint256_Uint64_eq : forall u, T_Uint256_Uint64 u = q0 u.
-Proof. intros. unfold T_Uint256_Uint64. split_all; fin. Qed.
+Proof. two (intros; unfold T_Uint256_Uint64; split_all; fin) ||| (g_eq idtac). Qed.
 Lemma L_Uint256_Uint128_eq : forall u, T_Uint256_Uint128 u = mk128 (q1 u) (q0 u).
-Proof. intros. unfold T_Uint256_Uint128. split_all; fin. Qed.
-Lemma L_Uint256_Uint256_eq : forall u, T_Uint256_Uint256 u = u. Proof. reflexivity. Qed.
-Lemma L_Uint256_Set64_eq : forall u v, T_Uint256_Set64 u v = mk256 0 0 0 v. Proof. reflexivity. Qed.
-Lemma L_Uint256_Cmp_eq : forall u v, T_Uint256_Cmp u v = u256_cmp u v.
-Proof. intros. unfold T_Uint256_Cmp, u256_cmp. split_all; fin. Qed.
-Lemma L_Uint256_Add_eq : forall u v, T_Uint256_Add u v = u256_add u v.
-Proof. intros. unfold T_Uint256_Add, u256_add. split_all; fin. Qed.
-Lemma L_Uint256_Sub_eq : forall u v, T_Uint256_Sub u v = u256_sub u v.
-Proof. intros. unfold T_Uint256_Sub, u256_sub. split_all; fin. Qed.
+Proof. two (intros; unfold T_Uint256_Uint128; split_all; fin) ||| (g_eq idtac). Qed.
+Lemma L_Uint256_Uint256_eq : forall u, T_Uint256_Uint256 u = u.
+Proof. two (reflexivity) ||| (g_eq idtac). Qed.
+Lemma L_Uint256_Set64_eq : forall u v, T_Uint256_Set64 u v = mk256 0 0 0 v.
+Proof. two (reflexivity) ||| (g_eq idtac). Qed.
+(* stated on the res-valued view R_: a comparison written as a loop over limb arrays is res-valued (array indexing) *)
+Lemma L_Uint256_Cmp_eq : forall u v, R_Uint256_Cmp u v = Ok (u256_cmp u v).
+Proof. two (intros; unfold R_Uint256_Cmp, T_Uint256_Cmp, u256_cmp; split_all; fin) ||| (g_eq ltac:(unfold u256_cmp)). Qed.
+Lemma L_Uint256_Add_eq : forall u v, wf256 u -> wf256 v -> T_Uint256_Add u v = u256_add u v.
+Proof. two (intros; unfold T_Uint256_Add, u256_add; split_all; fin) ||| (g_eq ltac:(unfold u256_add)). Qed.
+Lemma L_Uint256_Sub_eq : forall u v, wf256 u -> wf256 v -> T_Uint256_Sub u v = u256_sub u v.
+Proof. two (intros; unfold T_Uint256_Sub, u256_sub; split_all; fin) ||| (g_eq ltac:(unfold u256_sub)). Qed.
 Lemma L_Uint256_Equals_eq : forall u v, T_Uint256_Equals u v = (u256_cmp u v =? 0).
-Proof. intros. unfold T_Uint256_Equals. rewrite L_Uint256_Cmp_eq. reflexivity. Qed.
+Proof. two (intros; unfold T_Uint256_Equals, T_Uint256_Cmp, u256_cmp; split_all; fin) ||| (g_eq ltac:(unfold u256_cmp)). Qed.
 Lemma L_Uint256_LessThan_eq : forall u v, T_Uint256_LessThan u v = u256_lt u v.
-Proof. intros. unfold T_Uint256_LessThan. rewrite L_Uint256_Cmp_eq. reflexivity. Qed.
+Proof. two (intros; unfold T_Uint256_LessThan, T_Uint256_Cmp, u256_lt, u256_cmp; split_all; fin) ||| (g_eq ltac:(unfold u256_lt, u256_cmp)). Qed.
 Lemma L_Uint256_GreaterThan_eq : forall u v, T_Uint256_GreaterThan u v = (0 <? u256_cmp u v).
-Proof. intros. unfold T_Uint256_GreaterThan. rewrite L_Uint256_Cmp_eq. reflexivity. Qed.
+Proof. two (intros; unfold T_Uint256_GreaterThan, T_Uint256_Cmp, u256_cmp; split_all; fin) ||| (g_eq ltac:(unfold u256_cmp)). Qed.
 Lemma L_Uint256_LessThanOrEqual_eq : forall u v, T_Uint256_LessThanOrEqual u v = u256_le u v.
-Proof. intros. unfold T_Uint256_LessThanOrEqual. rewrite L_Uint256_GreaterThan_eq. reflexivity. Qed.
+Proof. two (intros; unfold T_Uint256_LessThanOrEqual; rewrite L_Uint256_GreaterThan_eq; reflexivity) ||| (g_eq ltac:(unfold u256_le, u256_cmp)). Qed.
 Lemma L_Uint256_GreaterThanOrEqual_eq : forall u v, T_Uint256_GreaterThanOrEqual u v = negb (u256_lt u v).
-Proof. intros. unfold T_Uint256_GreaterThanOrEqual. rewrite L_Uint256_LessThan_eq. reflexivity. Qed.
-Lemma L_Uint256_And_eq : forall u v, T_Uint256_And u v = mk256 (Z.land (q3 u) (q3 v)) (Z.land (q2 u) (q2 v)) (Z.land (q1 u) (q1 v)) (Z.land (q0 u) (q0 v)). Proof. reflexivity. Qed.
-Lemma L_Uint256_Or_eq : forall u v, T_Uint256_Or u v = mk256 (Z.lor (q3 u) (q3 v)) (Z.lor (q2 u) (q2 v)) (Z.lor (q1 u) (q1 v)) (Z.lor (q0 u) (q0 v)). Proof. reflexivity. Qed.
-Lemma L_Uint256_Xor_eq : forall u v, T_Uint256_Xor u v = mk256 (Z.lxor (q3 u) (q3 v)) (Z.lxor (q2 u) (q2 v)) (Z.lxor (q1 u) (q1 v)) (Z.lxor (q0 u) (q0 v)). Proof. reflexivity. Qed.
-Lemma L_Uint256_Not_eq : forall u, T_Uint256_Not u = mk256 (not64 (q3 u)) (not64 (q2 u)) (not64 (q1 u)) (not64 (q0 u)). Proof. reflexivity. Qed.
-Lemma L_Uint256_AsUint64_eq : forall u, T_Uint256_AsUint64 u = q0 u. Proof. reflexivity. Qed.
-
-(* ---------------- Uint128.QuoRem and its wrappers ---------------- *)
-Lemma lzcnt_range x : 0 <= x < W -> 0 <= lzcnt64 x <= 64.
-Proof.
-  intros Hx. destruct (Z.eq_dec x 0) as [->|]; [cbv; split; discriminate|].
-  pose proof (lzcnt_spec x ltac:(lia)). lia.
-Qed.
-Lemma shr64_range x k : 0 <= x < W -> 0 <= k -> 0 <= shr64 x k <= x.
-Proof.
-  intros Hx Hk. unfold shr64. destruct (Z.ltb_spec k 64); [|lia].
-  assert (0 < 2^k) by (apply Z.pow_pos_nonneg; lia).
-  split; [apply Z.div_pos; lia|]. apply Z.div_le_upper_bound; nia.
-Qed.
-Lemma div64_range hi lo y q r : 0 <= hi -> 0 <= lo < W -> div64 hi lo y = Some (q, r) -> 0 <= q < W.
-Proof.
-  unfold div64. intros Hh Hl. destruct (Z.eqb_spec y 0); cbn [orb]; [discriminate|].
-  destruct (Z.leb_spec y hi); [discriminate|]. intros E; inversion E; subst; clear E.
-  pose proof W_pos. split; [apply Z.div_pos; nia|]. apply Z.div_lt_upper_bound; nia.
-Qed.
-
-Lemma u128_sub_nofuel u v : u128_sub u v <> OutOfFuel.
-Proof. unfold u128_sub. split_all; discriminate. Qed.
-Lemma u128_add64_nofuel u v : u128_add64 u v <> OutOfFuel.
-Proof. unfold u128_add64. split_all; discriminate. Qed.
-Lemma u128_mul64_nofuel u v : u128_mul64 u v <> OutOfFuel.
-Proof. unfold u128_mul64. split_all; discriminate. Qed.
-Ltac nofuel := exfalso; first [eapply u128_sub_nofuel; eassumption | eapply u128_add64_nofuel; eassumption | eapply u128_mul64_nofuel; eassumption].
-Ltac qr_tail u v tq :=
-  rewrite L_Uint128_Mul64_eq; destruct (u128_mul64 v tq) as [m| |] eqn:EM; [|reflexivity|nofuel];
-  rewrite L_Uint128_Sub_eq; destruct (u128_sub u m) as [r| |] eqn:ES; [|reflexivity|nofuel];
-  rewrite L_Uint128_Cmp_eq; destruct (0 <=? u128_cmp r v); [|reflexivity];
-  rewrite L_Uint128_Add64_eq, L_Uint128_Sub_eq;
-  destruct (u128_add64 (mk128 0 tq) 1) as [q| |] eqn:EA; destruct (u128_sub r v) as [r2| |] eqn:ES2; try reflexivity; nofuel.
-
-Lemma L_Uint128_QuoRem_eq : forall u v, wf128 u -> wf128 v -> T_Uint128_QuoRem u v = u128_quorem u v.
-Proof.
-  intros u v Hu Hv. pose proof W_val as WV. unfold T_Uint128_QuoRem, u128_quorem.
-  rewrite L_Uint128_QuoRem64_eq.
-  destruct (Z.eqb_spec (h1 v) 0) as [E|E].
-  - cbv beta iota zeta delta [bind]. destruct (u128_quorem64 u (h0 v)) as [[q r]| |]; reflexivity.
-  - destruct Hv as [Hv1 Hv0].
-    pose proof (lzcnt_spec (h1 v) ltac:(lia)) as [L _].
-    cbv zeta. rewrite (Z.mod_small (lzcnt64 (h1 v)) W) by lia.
-    rewrite (Z.mod_small (63 - lzcnt64 (h1 v)) W) by lia.
-    rewrite L_Uint128_LeftShift_eq by lia. rewrite L_Uint128_RightShift_eq by lia.
-    pose proof (u128_shr_spec u 1 Hu ltac:(lia)) as [[Hs1 Hs0] _].
-    unfold div64r.
-    destruct (div64 (h1 (u128_shr u 1)) (h0 (u128_shr u 1)) (h1 (u128_shl v (lzcnt64 (h1 v))))) as [[tq rr]|] eqn:ED;
-      cbv beta iota zeta delta [bind]; [|reflexivity].
-    pose proof (div64_range _ _ _ _ _ (proj1 Hs1) Hs0 ED) as Htq.
-    pose proof (shr64_range tq (63 - lzcnt64 (h1 v)) Htq ltac:(lia)) as Hsh.
-    set (tq' := shr64 tq (63 - lzcnt64 (h1 v))) in *.
-    destruct (Z.eqb_spec tq' 0) as [E0|E0]; cbv beta iota zeta delta [negb].
-    + qr_tail u v tq'.
-    + rewrite (Z.mod_small (tq' - 1) W) by lia. qr_tail u v (tq' - 1).
-Qed.
-Definition rmap {A B} (f : A -> B) (r : res A) : res B :=
-  match r with Ok a => Ok (f a) | Panic => Panic | OutOfFuel => OutOfFuel end.
-Lemma L_Uint128_Div_eq : forall u v, wf128 u -> wf128 v -> T_Uint128_Div u v = rmap fst (u128_quorem u v).
-Proof. intros. unfold T_Uint128_Div. rewrite L_Uint128_QuoRem_eq by assumption.
-  destruct (u128_quorem u v) as [[q r]| |]; reflexivity. Qed.
-Lemma L_Uint128_Mod_eq : forall u v, wf128 u -> wf128 v -> T_Uint128_Mod u v = rmap snd (u128_quorem u v).
-Proof. intros. unfold T_Uint128_Mod. rewrite L_Uint128_QuoRem_eq by assumption.
-  destruct (u128_quorem u v) as [[q r]| |]; reflexivity. Qed.
-Lemma L_Uint128_Div64_eq : forall u v, T_Uint128_Div64 u v = rmap fst (u128_quorem64 u v).
-Proof. intros. unfold T_Uint128_Div64. rewrite L_Uint128_QuoRem64_eq.
-  destruct (u128_quorem64 u v) as [[q r]| |]; reflexivity. Qed.
-Lemma L_Uint128_Mod64_eq : forall u v, T_Uint128_Mod64 u v = rmap snd (u128_quorem64 u v).
-Proof. intros. unfold T_Uint128_Mod64. rewrite L_Uint128_QuoRem64_eq.
-  destruct (u128_quorem64 u v) as [[q r]| |]; reflexivity. Qed.
-
-(* ---------------- Uint256 shifts: the whole-limb loop ---------------- *)
-Lemma shl_loop_spec : forall fuel u n, 0 <= n < W -> (Z.to_nat (n / 64) < fuel)%nat ->
-  T_Uint256_LeftShift_loop1 fuel n u = Ok (n mod 64, limbs_up (Z.to_nat (n / 64)) u).
-Proof.
-  pose proof W_val as WV.
-  induction fuel as [|f IH]; intros u n Hn Hf; [lia|].
-  cbn [T_Uint256_LeftShift_loop1]. destruct (Z.leb_spec 64 n) as [G|G].
-  - cbv zeta. rewrite (Z.mod_small (n - 64) W) by lia.
-    assert (E : n / 64 = (n - 64) / 64 + 1) by lia.
-    rewrite IH by lia. rewrite E.
-    replace (Z.to_nat ((n - 64) / 64 + 1)) with (S (Z.to_nat ((n - 64) / 64))) by lia.
-    cbn [limbs_up]. do 2 f_equal. lia.
-  - replace (n / 64) with 0 by lia. cbn [Z.to_nat limbs_up]. do 2 f_equal. lia.
-Qed.
-Lemma shr_loop_spec : forall fuel u n, 0 <= n < W -> (Z.to_nat (n / 64) < fuel)%nat ->
-  T_Uint256_RightShift_loop1 fuel n u = Ok (n mod 64, limbs_down (Z.to_nat (n / 64)) u).
-Proof.
-  pose proof W_val as WV.
-  induction fuel as [|f IH]; intros u n Hn Hf; [lia|].
-  cbn [T_Uint256_RightShift_loop1]. destruct (Z.leb_spec 64 n) as [G|G].
-  - cbv zeta. rewrite (Z.mod_small (n - 64) W) by lia.
-    assert (E : n / 64 = (n - 64) / 64 + 1) by lia.
-    rewrite IH by lia. rewrite E.
-    replace (Z.to_nat ((n - 64) / 64 + 1)) with (S (Z.to_nat ((n - 64) / 64))) by lia.
-    cbn [limbs_down]. do 2 f_equal. lia.
-  - replace (n / 64) with 0 by lia. cbn [Z.to_nat limbs_down]. do 2 f_equal. lia.
-Qed.
-
-Lemma L_Uint256_LeftShift_eq : forall u n, 0 <= n < W -> T_Uint256_LeftShift u n = Ok (u256_shl u n).
-Proof.
-  intros u n Hn. pose proof W_val as WV. unfold T_Uint256_LeftShift, u256_shl.
-  destruct (Z.leb_spec 256 n) as [G|G]; [reflexivity|].
-  rewrite shl_loop_spec by lia. cbv beta iota zeta delta [bind].
-  set (u' := limbs_up (Z.to_nat (n / 64)) u). set (m := n mod 64).
-  assert (Hm : 0 <= m < W) by (subst m; lia).
-  unfold u256_shl_orig.
-  rewrite L_Uint64_LeftShift64_eq by assumption. destruct (leftshift64 (q0 u') m 0) as [w0 c0].
-  rewrite L_Uint64_LeftShift64_eq by assumption. destruct (leftshift64 (q1 u') m c0) as [w1 c1].
-  rewrite L_Uint64_LeftShift64_eq by assumption. destruct (leftshift64 (q2 u') m c1) as [w2 c2].
-  rewrite L_Uint64_LeftShift64_eq by assumption. destruct (leftshift64 (q3 u') m c2) as [w3 c3].
-  reflexivity.
-Qed.
-Lemma L_Uint256_RightShift_eq : forall u n, 0 <= n < W -> T_Uint256_RightShift u n = Ok (u256_shr u n).
-Proof.
-  intros u n Hn. pose proof W_val as WV. unfold T_Uint256_RightShift, u256_shr.
-  destruct (Z.leb_spec 256 n) as [G|G]; [reflexivity|].
-  rewrite shr_loop_spec by lia. cbv beta iota zeta delta [bind].
-  set (u' := limbs_down (Z.to_nat (n / 64)) u). set (m := n mod 64).
-  assert (Hm : 0 <= m < W) by (subst m; lia).
-  unfold u256_shr_orig.
-  rewrite L_Uint64_RightShift64_eq by assumption. destruct (rightshift64 (q3 u') m 0) as [w3 c3].
-  rewrite L_Uint64_RightShift64_eq by assumption. destruct (rightshift64 (q2 u') m c3) as [w2 c2].
-  rewrite L_Uint64_RightShift64_eq by assumption. destruct (rightshift64 (q1 u') m c2) as [w1 c1].
-  rewrite L_Uint64_RightShift64_eq by assumption. destruct (rightshift64 (q0 u') m c1) as [w0 c0].
-  reflexivity.
-Qed.
-
-(* ---------------- Uint256.Div: the two loops ---------------- *)
-Lemma top_bit_test x : 0 <= x < W -> (shr64 x 63 =? 0) = (x <? 2^63).
-Proof.
-  intros Hx. pose proof W_val. unfold shr64. change (63 <? 64) with true. cbv iota.
-  change (2^63) with 9223372036854775808.
-  destruct (Z.eqb_spec (x / 9223372036854775808) 0); destruct (Z.ltb_spec x 9223372036854775808); try reflexivity; lia.
-Qed.
-Lemma ge_is_le u v : wf256 u -> wf256 v -> negb (u256_lt u v) = u256_le v u.
-Proof.
-  intros Hu Hv. rewrite u256_lt_spec, u256_le_spec by assumption.
-  destruct (Z.ltb_spec (val256 u) (val256 v)); destruct (Z.leb_spec (val256 v) (val256 u)); try reflexivity; lia.
-Qed.
-Lemma u256_sub_wf u v r : u256_sub u v = Ok r -> wf256 r.
-Proof.
-  pose proof W_pos. unfold u256_sub. norm.
-  repeat match goal with |- context [if ?b then _ else _] => destruct b end; intros E; inversion E; subst;
-  unfold wf256; cbn [q3 q2 q1 q0]; repeat split; try (apply Z.mod_pos_bound; lia).
-Qed.
-Lemma u256_add_wf u v r : u256_add u v = Ok r -> wf256 r.
-Proof.
-  pose proof W_pos. unfold u256_add. norm.
-  repeat match goal with |- context [if ?b then _ else _] => destruct b end; intros E; inversion E; subst;
-  unfold wf256; cbn [q3 q2 q1 q0]; repeat split; try (apply Z.mod_pos_bound; lia).
-Qed.
-Lemma u256_sub_nofuel u v : u256_sub u v <> OutOfFuel.
-Proof. unfold u256_sub. norm. repeat match goal with |- context [if ?b then _ else _] => destruct b end; discriminate. Qed.
-Lemma u256_add_nofuel u v : u256_add u v <> OutOfFuel.
-Proof. unfold u256_add. norm. repeat match goal with |- context [if ?b then _ else _] => destruct b end; discriminate. Qed.
-
-Definition o2r {A} (o : option A) : res A := match o with Some a => Ok a | None => OutOfFuel end.
-
-Lemma div_loop2_spec : forall fuel r t m, wf256 t ->
-  T_Uint256_Div_loop2 fuel t r m = o2r (div_inner true fuel t m r).
-Proof.
-  induction fuel as [|f IH]; intros r t m Ht; [reflexivity|].
-  cbn [T_Uint256_Div_loop2 div_inner]. pose proof W_val as WV.
-  rewrite top_bit_test by (destruct Ht as (H3 & _); exact H3).
-  rewrite !L_Uint256_LeftShift_eq by lia. cbv beta iota zeta delta [bind negb orb].
-  rewrite L_Uint256_LessThanOrEqual_eq.
-  destruct (q3 t <? 2^63) eqn:E1; cbv beta iota zeta delta [bind andb]; [|reflexivity].
-  destruct (u256_le (u256_shl t 1) r) eqn:E2; [|reflexivity].
-  apply IH. apply u256_shl_spec; [assumption|lia].
-Qed.
-
-Lemma div_loop1_spec : forall fuel v q r, wf256 v -> wf256 r ->
-  rmap snd (T_Uint256_Div_loop1 fuel r v q) = div_outer true fuel v q r.
-Proof.
-  induction fuel as [|f IH]; intros v q r Hv Hr; [reflexivity|].
-  cbn [T_Uint256_Div_loop1 div_outer].
-  rewrite L_Uint256_GreaterThanOrEqual_eq, ge_is_le by assumption.
-  destruct (u256_le v r); [|reflexivity].
-  cbv zeta. rewrite div_loop2_spec by assumption.
-  destruct (div_inner true 257 v (mk256 0 0 0 1) r) as [[t m]|]; cbv beta iota zeta delta [bind o2r]; [|reflexivity].
-  rewrite L_Uint256_Sub_eq, L_Uint256_Add_eq.
-  destruct (u256_sub r t) as [r'| |] eqn:ES; [|reflexivity|exfalso; eapply u256_sub_nofuel; eassumption].
-  destruct (u256_add q m) as [q'| |] eqn:EA; [|reflexivity|exfalso; eapply u256_add_nofuel; eassumption].
-  apply IH; [assumption|]. eapply u256_sub_wf; eassumption.
-Qed.
-
-Lemma L_Uint256_Div_eq : forall u v, wf256 u -> wf256 v -> T_Uint256_Div u v = u256_div u v.
-Proof.
-  intros u v Hu Hv. unfold T_Uint256_Div, u256_div, u256_div_gen.
-  rewrite (L_Uint256_IsZero_eq v), (L_Uint256_IsZero_eq u), L_Uint256_LessThan_eq, L_Uint256_Equals_eq.
-  destruct (u256_iszero v); [reflexivity|].
-  destruct (u256_iszero u || u256_lt u v)%bool; [reflexivity|].
-  destruct (u256_cmp v (mk256 0 0 0 1) =? 0); [reflexivity|].
-  cbv zeta. rewrite <- div_loop1_spec by assumption.
-  destruct (T_Uint256_Div_loop1 257 u v (mk256 0 0 0 0)) as [[r q]| |]; reflexivity.
-Qed.
-
+Proof. two (intros; unfold T_Uint256_GreaterThanOrEqual; rewrite L_Uint256_LessThan_eq; reflexivity) ||| (g_eq ltac:(unfold u256_lt, u256_cmp)). Qed.
+Lemma L_Uint256_And_eq : forall u v, T_Uint256_And u v = mk256 (Z.land (q3 u) (q3 v)) (Z.land (q2 u) (q2 v)) (Z.land (q1 u) (q1 v)) (Z.land (q0 u) (q0 v)).
+Proof. two (reflexivity) ||| (g_eq idtac). Qed.
+Lemma L_Uint256_Or_eq : forall u v, T_Uint256_Or u v = mk256 (Z.lor (q3 u) (q3 v)) (Z.lor (q2 u) (q2 v)) (Z.lor (q1 u) (q1 v)) (Z.lor (q0 u) (q0 v)).
+Proof. two (reflexivity) ||| (g_eq idtac). Qed.
+Lemma L_Uint256_Xor_eq : forall u v, T_Uint256_Xor u v = mk256 (Z.lxor (q3 u) (q3 v)) (Z.lxor (q2 u) (q2 v)) (Z.lxor (q1 u) (q1 v)) (Z.lxor (q0 u) (q0 v)).
+Proof. two (reflexivity) ||| (g_eq idtac). Qed.
+Lemma L_Uint256_Not_eq : forall u, T_Uint256_Not u = mk256 (not64 (q3 u)) (not64 (q2 u)) (not64 (q1 u)) (not64 (q0 u)).
+Proof. two (reflexivity) ||| (g_eq idtac). Qed.
+Lemma L_Uint256_AsUint64_eq : forall u, T_Uint256_AsUint64 u = q0 u.
+Proof. two (reflexivity) ||| (g_eq idtac). Qed.
